@@ -1,4 +1,5 @@
 import Astits.Driver.C02
+import Astits.Driver.C06
 import Astits.Driver.C10
 import Astits.Driver.C11
 import Astits.Driver.C12
@@ -16,6 +17,7 @@ def main (args : List String) : IO UInt32 := do
     let s : UInt64 := UInt64.ofNat (seed.toNat?.getD 0) * 0x9E3779B97F4A7C15 + 0x1234567
     let act : Option (Emit Unit) := match prop with
       | "C02" => some (DriverC02.run t)
+      | "C06" => some (DriverC06.run t)
       | "C10" => some (DriverC10.run t)
       | "C11" => some (DriverC11.run t)
       | "C12" => some (DriverC12.run t)
